@@ -87,6 +87,12 @@ CLAIMED["C34"] = ("cauth", "exploration",
    "Preference order of a bare AlgorithmSigner is undocumented and not asserted (membership only). After the server-to-client direction is cut the list oracles are suspended.",
    "DESIGN.md section 4 H-cauth")
 
+CLAIMED["C36"] = ("mux", "exploration",
+   "deterministic simulation of the real mux/channel code against a scripted adversarial packet-level peer interleaved with local API calls under seeded schedules; quiescence barrier for the stale-reply oracle; shutdown oracle at quiescence",
+   "The real connection protocol runs over an in-memory packet connection against a peer that emits generated grammar-based packet sequences (valid and invalid: unknown or closed channel ids, duplicate confirmations, malformed lengths, truncated bodies, messages of other layers, overflowing window adjusts, data beyond limits, EOF/close in any order, global and channel requests, pings) while local tasks call OpenChannel, SendRequest, Accept/Reject, Write/Read/Close. Oracles: no panic; nothing addressed to an unknown channel ever surfaces locally and want-reply requests for unknown channels are answered with failure; a reply injected while no request is waiting (established by a quiescence barrier) is never delivered to a later request; a certain duplicate open response ends the connection without a second OpenChannel result; when the connection ends every local call returns, every request and channel stream is closed and Wait returns (judged at quiescence). Seeded sampling.",
+   "Replies racing with an in-flight request may go either way. Non-request packets for unknown channels need not end the connection. No transport underneath.",
+   "DESIGN.md section 4 H-mux")
+
 NA = {
  "C01": "pure function of (key, nonce, plaintext, ad): no schedule, clock, peer, stream fault or persisted state for a simulator to own; needs an independent AEAD and input generation (differential testing)",
  "C02": "pure predicate over byte strings; tampering here is input mutation, not an in-flight fault on a stateful stream",
@@ -129,7 +135,7 @@ NA = {
 
 PLANNED = {
   
-    "C36": "H-mux",
+    
     "C51": "H-autocert",
 }
 
